@@ -43,6 +43,8 @@ def explore(prog, run, on_path, loop_bound=16, max_paths=200000, timeout_ms=2000
             res = PathResult('return', v, '', ctx, I)
         except PathEnd as e:
             res = PathResult(e.kind, None, e.msg, ctx, I)
+        except LoopBack as e:
+            res = PathResult('backedge', e.frame, '', ctx, I)
         stats['paths'] += 1
         stats['outcomes'][res.kind] = stats['outcomes'].get(res.kind, 0) + 1
         stats.setdefault('functions', set()).update(I.called)
